@@ -700,6 +700,135 @@ class CodeGen:
         if s["mode"] in ("caught_exit_then_end", "caught_error_then_end"):
             self.emit("__term__('after-caught')")
 
+    # -- oblivious block API (C09) ---------------------------------------------------------
+    def tv(self, name):
+        return ("T_" + name) if self.mode == "native" else ("_." + name)
+
+    def bx(self, e):
+        """Expression over tracked variables, I variables and constants (both modes)."""
+        if "tv" in e:
+            return self.tv(e["tv"])
+        if "lv" in e:
+            return e["lv"]                       # loop variable of an enclosing _range
+        if "ref" in e:
+            return self.var(e["t"], e["ref"])
+        if "k" in e:
+            return repr(e["k"])
+        if "op" in e:
+            return "(%s %s %s)" % (self.bx(e["a"]), e["op"], self.bx(e["b"]))
+        if e.get("call") == "ite_lazy":
+            if self.mode == "native":
+                return "(%s if %s else %s)" % (self.bx(e["t_"]), self.bx(e["cond"]), self.bx(e["f_"]))
+            return "if_then_else(%s, lambda: %s, lambda: %s)" % (self.bx(e["cond"]), self.bx(e["t_"]), self.bx(e["f_"]))
+        if e.get("call") == "ite":
+            if self.mode == "native":
+                return "(%s if %s else %s)" % (self.bx(e["t_"]), self.bx(e["cond"]), self.bx(e["f_"]))
+            return "if_then_else(%s, %s, %s)" % (self.bx(e["cond"]), self.bx(e["t_"]), self.bx(e["f_"]))
+        raise ValueError("bx: %r" % (e,))
+
+    def st_tracked_init(self, s):
+        self.emit("%s = %s" % (self.tv(s["name"]), self.bx(s["e"])))
+        self.step({"kind": "tracked_init", "desc": {"op": "tracked_init"}})
+
+    def st_track(self, s):
+        self.emit("%s = %s" % (self.tv(s["name"]), self.bx(s["e"])))
+        self.step({"kind": "track", "desc": {"op": "track"}})
+
+    def block_body(self, body):
+        self.ind += 1
+        if not body:
+            self.emit("pass")
+        for x in body:
+            self.st(x)
+        self.ind -= 1
+
+    def st_block_if(self, s):
+        native = self.mode == "native"
+        def body():
+            self.emit(("if %s:" if native else "if _if(%s):") % self.bx(s["cond"]))
+            self.block_body(s["then"])
+            for c, b in s.get("elifs", []):
+                self.emit(("elif %s:" if native else "if _elif(lambda: %s):") % self.bx(c))
+                self.block_body(b)
+            if s.get("else") is not None:
+                self.emit("else:" if native else "if _else():")
+                self.block_body(s["else"])
+            if not native:
+                self.emit("_endif()")
+        self.wrap_try(s, body)
+        self.step({"kind": "after_block", "desc": {"op": "block_if", "elifs": len(s.get("elifs", [])),
+                                                     "else": s.get("else") is not None}})
+
+    def st_block_while(self, s):
+        native = self.mode == "native"
+        self.rid += 1
+        it = "_it%d" % self.rid
+        def body():
+            self.emit("%s = 0" % it)
+            if native:
+                self.emit("while %s and %s < %d:" % (self.bx(s["cond"]), it, s["max"]))
+            else:
+                self.emit("while _while(%s) and %s < %d:" % (self.bx(s["cond"]), it, s["max"]))
+            self.ind += 1
+            pos = s.get("break_pos", len(s["body"]))
+            for i, x in enumerate(s["body"]):
+                if s.get("breakif") is not None and i == pos:
+                    self.emit_break(s["breakif"], native)
+                self.st(x)
+            if s.get("breakif") is not None and pos >= len(s["body"]):
+                self.emit_break(s["breakif"], native)
+            self.emit("%s += 1" % it)
+            self.ind -= 1
+            if not native:
+                self.emit("_endwhile()")
+        self.wrap_try(s, body)
+        self.step({"kind": "after_block", "desc": {"op": "block_while", "breakif": s.get("breakif") is not None}})
+
+    def emit_break(self, cond, native, rid=None):
+        if native:
+            if rid is not None:
+                self.emit("if %s:" % self.bx(cond))
+                self.emit("    _broke%d = True" % rid)
+                self.emit("    break")
+            else:
+                self.emit("if %s: break" % self.bx(cond))
+        else:
+            self.emit("_breakif(%s)" % self.bx(cond))
+
+    def st_block_for(self, s):
+        native = self.mode == "native"
+        self.rid += 1
+        rid = self.rid
+        s_lv = s["lv"]
+        def body():
+            if native:
+                self.emit("_broke%d = False" % self.rid)
+                self.emit("for %s in range(min(%s, %d)):" % (s_lv, self.bx(s["stop"]), s["max"]))
+            else:
+                self.emit("for %s in _range(%s, max=%d, checkstopmax=%r):" % (
+                    s_lv, self.bx(s["stop"]), s["max"], bool(s.get("checkstopmax"))))
+            self.ind += 1
+            pos = s.get("break_pos", len(s["body"]))
+            for i, x in enumerate(s["body"]):
+                if s.get("breakif") is not None and i == pos:
+                    self.emit_break(s["breakif"], native, rid)
+                self.st(x)
+            if not s["body"] and s.get("breakif") is None:
+                self.emit("pass")
+            if s.get("breakif") is not None and pos >= len(s["body"]):
+                self.emit_break(s["breakif"], native, rid)
+            self.ind -= 1
+            if native:
+                if s.get("checkstopmax"):
+                    # the bound is only known to exceed max if the loop was still running at the cap
+                    self.emit("if %s > %d and not _broke%d: raise AssertionError('stop exceeds max')" % (
+                        self.bx(s["stop"]), s["max"], rid))
+            else:
+                self.emit("_endfor()")
+        self.wrap_try(s, body)
+        self.step({"kind": "after_block", "desc": {"op": "block_for", "checkstopmax": bool(s.get("checkstopmax")),
+                                                     "breakif": s.get("breakif") is not None}})
+
     def schema_src(self, sc):
         k = sc[0]
         if k == "bool":
@@ -732,6 +861,8 @@ class CodeGen:
 
     # -- whole plan
     def generate(self):
+        if self.plan.get("blocks") and self.mode != "native":
+            self.emit("_ = BranchingValues()")
         for i, inp in enumerate(self.plan["inputs"]):
             t = inp["t"]
             nm = self.new_var(t)
